@@ -5,12 +5,15 @@ report a VIOLATION (with or without a failing input). Usage: tools/seedall.py [n
 import json, os, shutil, subprocess, sys, tempfile, time
 V = os.path.dirname(os.path.dirname(os.path.abspath(__file__)))
 S = os.path.join(V, "seeded")
-want = sys.argv[1:]
-for name in sorted(os.listdir(S)):
+want = [a for a in sys.argv[1:] if not a.startswith("--jobs=")]
+JOBS = int(([a.split("=")[1] for a in sys.argv[1:] if a.startswith("--jobs=")] or ["1"])[0])
+
+
+def one(name):
     d = os.path.join(S, name)
     mp = os.path.join(d, "meta.json")
     if not os.path.exists(mp) or (want and not any(name.startswith(w) for w in want)):
-        continue
+        return
     meta = json.load(open(mp))
     checks = meta.get("checks") or [meta["property"]]
     tmp = tempfile.mkdtemp(prefix="seedrepo_")
@@ -35,4 +38,7 @@ for name in sorted(os.listdir(S)):
                           "date": time.strftime("%Y-%m-%d %H:%M"), "results": res}
     json.dump(meta, open(mp, "w"), indent=1)
     print(name, res, flush=True)
-subprocess.call(["git", "-C", V, "checkout", "--", "evidence"], stdout=subprocess.DEVNULL, stderr=subprocess.DEVNULL)
+
+import concurrent.futures
+with concurrent.futures.ThreadPoolExecutor(max_workers=JOBS) as ex:
+    list(ex.map(one, sorted(os.listdir(S))))
